@@ -15,7 +15,8 @@ RULE = ('Zones as in C04 (fixed offsets, real and synthetic TZif files incl. neg
         'for the later instant; with one pre-image fold does not change the offset; resolve_imaginary(w) returns the very same '
         'object when w exists and otherwise w moved forward by exactly the gap width, onto an existing time.  Wall times with '
         '> 2 pre-images are counted and skipped.  Non-trivial = wall time inside or at the edge of a gap / fold; distinct = '
-        '(zone, transition, position class, fold).')
+        '(zone, transition, position class, fold).'
+        ' The classification is asked in four argument forms (naive + tz with fold 0 / 1, aware with fold 0 / 1) which must agree; the scheduled shared-zone scenario of C04 is run with classification answers.')
 ASSUMPTIONS = ['truth models as in C04 (TZif reader, POSIX evaluator)', 'tzfile: wall times whose pre-images could lie after the last '
                'recorded transition are not claimed', 'mechanism K5 (resolve_imaginary across gaps wider than 24 h or with a second '
                'offset change within 24 h) is classified on the truth model']
